@@ -30,15 +30,16 @@ def observe(x, perm_seed):
     if perm_seed is not None:
         random.Random(perm_seed).shuffle(perm)
     atoms = [x["atoms"][i] for i in perm]
-    ev = {"cell": x["cell"], "atoms": atoms, "obs": [], "exc": "none"}
+    ev = {"cell": x["cell"], "atoms": atoms, "obs": [], "exc": "none", "kind": x.get("kind", "")}
+    unit = 1e6 if x.get("kind") == "near" else 100.0       # position units per Angstrom
     try:
         with contextlib.redirect_stderr(io.StringIO()):
             els = [t["el"] for t in atoms]
             uniq = list(dict.fromkeys(els))
             # explicit type tables: the radius table has entries (D) that the mass table lacks, and masses play no role here
             a = Atoms(atom_types=[uniq.index(e) for e in els], atom_type_elements=uniq, atom_type_masses=[1.0] * len(uniq),
-                      atom_type_labels=uniq, positions=np.array([t["pos"] for t in atoms], dtype=float) / 100.0,
-                      cell=(np.array(x["cell"], dtype=float) / 100.0) if x["cell"] else None)
+                      atom_type_labels=uniq, positions=np.array([t["pos"] for t in atoms], dtype=float) / unit,
+                      cell=(np.array(x["cell"], dtype=float) / unit) if x["cell"] else None)
             b = detect_bonds(a)
         ev["obs"] = [[int(i), int(j)] for i, j in np.array(b).reshape(-1, 2)]
     except Exception as e:
